@@ -2,7 +2,7 @@
  * Scenario (-D): TA,TB[,TC] = thread body of each model thread (i: insert k0 | ii: insert k0; insert k1 | f: find k0 |
  *   if: insert k0; find k1 | c: count k0 | t: full traversal), KA0,KA1,KB0,KB1,KC0,KC1 = keys (concrete),
  *   NB = initial bucket count, MLF10 = max_load_factor*10 (0: default 4.0), NPRE,PRE0..PRE3 = keys inserted sequentially
- *   before the threads start (real insert), HMODE = user hash (0: h=k, 1: h=0 for every key, 2: h=16*k, 3: h=k|2^63*(k&1)),
+ *   before the threads start (real insert), HMODE = user hash (0: h=k, 1: h=0 for every key, 2: h=16*k, 3: h=(k>>1)|2^63*(k&1)),
  *   ROUNDS free rounds, MULTI=1 multiset.
  * Symbolic inside a query: the schedule (context switch before any memory operation).
  * Oracle at quiescence: raw walk of the whole list (sorted order keys, dummies unique and registered in the bucket table,
@@ -89,7 +89,7 @@ u64 vp_hash(u32 k) {
 #elif HMODE == 2
   return (u64)k * 16;
 #else
-  return (u64)k | ((u64)(k & 1) << 63);   /* pairs of hashes that differ only in bit 63 share an order key */
+  return (u64)(k >> 1) | ((u64)(k & 1) << 63);   /* keys 2j and 2j+1: hashes differ only in bit 63 => same bucket, same order key */
 #endif
 }
 /* cut: tbb::detail::machine_reverse_bits<unsigned long> -> its contract (exact bit reversal; decided for the real function
@@ -212,6 +212,7 @@ int main(void) {
   VP_ASSERT(!vp_deadlock, "threads blocked forever in an insert-only container");
   __CPROVER_assume(!vp_unfinished);
 
+  int live_at_quiescence = live_allocs;   /* (the sequential contains() below may lazily initialise a bucket = allocate a dummy) */
   /* ---- A. raw walk of the split-ordered list (one pass, per-node data cached) */
   { u8* p = vp_us_head(SP);
     for (int i = 0; i < MAXN; i++) {
@@ -320,7 +321,7 @@ int main(void) {
     for (int i = 0; i < nv; i++) VP_ASSERT((int)it[i] == vals[i], "iteration order differs from the list"); }
 #endif
   /* ---- allocation balance: every node that lost a race was freed exactly once, nothing else was */
-  VP_ASSERT(live_allocs == nn - 1, "allocation balance: leaked or double-freed node");
+  VP_ASSERT(live_at_quiescence == nn - 1, "allocation balance: leaked or double-freed node");
   VP_REACHED();
   return 0;
 }
